@@ -784,6 +784,12 @@ class CallMixin:
                 nf = len([k for k, s_ in recv.attr.assigns.items() if isinstance(s_, ast.AnnAssign)])
                 items = [self.elem(seq, i, None, site) for i in range(nf)]
             return self.instantiate(recv, items, {}, st, fr, site)
+        if recv.op in ("Func", "Closure") and name == "__get__" and 1 <= len(pos) <= 2 and not kw:
+            # function.__get__(obj, owner): the function bound to obj (the function itself for obj None)
+            o_ = self.res(pos[0], st)
+            if o_.op == "Const" and o_.attr is None:
+                return recv
+            return self.mk("BoundMethod", (pos[0], recv), None, site)
         # dict / list models
         if recv.op == "Dict":
             if name == "keys" and not pos:
@@ -1281,6 +1287,17 @@ class CallMixin:
             srt = self._sorted_const(P[0], site)
             if srt is not None:
                 return srt
+        if q == "collections.ChainMap" and P and not kw:
+            return self.mk("ChainMap", tuple(P), None, site)
+        if q == "builtins.dict" and len(P) == 1 and not kw and P[0].op == "ChainMap":
+            # dict(ChainMap(a, b, ...)): the maps from the last to the first, each overriding values of the ones before it
+            maps = [self.res(m_, st) for m_ in P[0].args]
+            out = maps[-1]
+            for m_ in reversed(maps[:-1]):
+                out = self.binop("BitOr", out, m_, site)
+            return out
+        if q == "functools.update_wrapper" and P:
+            return P[0]             # the wrapper itself (only its metadata attributes are updated)
         if q == "builtins.dict" and not P:
             return self.mk("Dict", [kw[k] for k in kw], tuple(("k", k) for k in kw), site)
         if q == "builtins.dict" and len(P) == 1 and P[0].op == "Dict" and not kw:
